@@ -192,7 +192,7 @@ class Reactive:
                  refuse_connect=False):
         self.drv = drv
         if choices is None:
-            choices = [rng.randrange(0, 8) for _ in range(60)]
+            choices = [rng.randrange(0, 16) for _ in range(60)]
         self.cfg = dict(sasl_pre=sasl_pre, sasl_post=sasl_post if sasl_post is not None else sasl_pre,
                         starttls=starttls, version=version, login=login, password=password,
                         maxsize=maxsize, maxscripts=maxscripts, eol=eol, store=list(store), active=active,
@@ -675,7 +675,7 @@ def check_C15(report, tier, seed, replay=None):
         active = rng.choice([k for k, _ in store] + [None]) if store else None
         rc = Reactive(drv, rng, version=version, store=store, active=active, maxsize=rng.choice([30, 100000]),
                       maxscripts=rng.choice([2, 50]), eol=rng.random() < 0.8, segment=random_segmenter(rng),
-                      choices=[rng.randrange(0, 8) for _ in range(400)])
+                      choices=[rng.randrange(0, 16) for _ in range(400)])
         steps = rng.randrange(1, 31)
         ops = [("connect", b"user", b"secret", b"", False, None)]
         for _ in range(steps):
